@@ -84,6 +84,21 @@ fn state_json<E: Residual>(s: &State<E>) -> Value {
            "x": s.molefracs.to_vec(), "partial_density": s.partial_density.to_reduced().to_vec()})
 }
 
+
+/// the value `minimize_tpd` returned for each state of `trials` (hooked re-run of the N+1 minimisations; matched bit-for-bit)
+fn code_tpds<E: Residual>(feed: &State<E>, opts: SolverOptions, trials: &[State<E>]) -> Vec<Option<f64>> {
+    let n = feed.eos.components();
+    let mut finals: Vec<(Vec<f64>, f64)> = Vec::new();
+    for i in 0..=n {
+        if let Ok(mut t) = run_guard(|| feed.verif_define_trial_state(i)) {
+            if let Ok((Some(tpd), _)) = run_guard(|| feed.verif_minimize_tpd(&mut t, opts)) {
+                finals.push((t.partial_density.to_reduced().to_vec(), tpd));
+            }
+        }
+    }
+    trials.iter().map(|s| { let r = s.partial_density.to_reduced().to_vec(); finals.iter().find(|f| f.0 == r).map(|f| f.1) }).collect()
+}
+
 /// what the property asks of one analysed state
 #[derive(Clone, Copy, PartialEq)]
 enum Expect {
@@ -129,16 +144,18 @@ fn analyse<E: Residual>(
 ) -> Option<Vec<State<E>>> {
     tally.analysed += 1;
     let ent = tally.by_kind.entry(kind.to_string()).or_insert([0; 3]);
-    let mut fail = |ty: &str, what: String, detail: Value, tpds: Vec<f64>| {
+    let mut fail = |ty: &str, what: String, detail: Value, tpds: Vec<f64>, codes: Vec<Option<f64>>| {
         failures.push(json!({"key": key, "kind": kind, "type": ty, "what": what, "detail": detail, "feed": state_json(feed),
-            "max_abs_tpd_recomputed": tpds.iter().fold(0.0f64, |a, t| a.max(t.abs())), "options": key["opts"]}));
+            "max_abs_tpd_recomputed": tpds.iter().fold(0.0f64, |a, t| a.max(t.abs())), "options": key["opts"],
+            "tpd_accepted_by_the_code": codes}));
     };
+    let opt_index = key["opts"].as_u64().unwrap_or(0) as usize;
     let res = run_guard(|| feed.stability_analysis(opts));
     let out = match res {
         Err(e) => {
             ent[2] += 1;
-            if expect != Expect::Any {
-                fail("error_instead_of_verdict", format!("stability_analysis returns an error instead of a verdict: {e}"), json!({"error": e}), vec![]);
+            if expect != Expect::Any && !(below_noise_floor(opt_index) && e.starts_with("NotConverged")) {
+                fail("error_instead_of_verdict", format!("stability_analysis returns an error instead of a verdict: {e}"), json!({"error": e}), vec![], vec![]);
             } else {
                 tally.errors_any += 1;
             }
@@ -182,7 +199,7 @@ fn analyse<E: Residual>(
                     }
                 }
                 if !bad.is_empty() {
-                    fail("unsound_trial_phase", bad.join("; "), json!({"trial": state_json(tr), "tpd_recomputed": t, "w": w, "ln_phi_w": pw, "z": z, "ln_phi_z": pz}), vec![if t.is_finite() { t } else { f64::INFINITY }]);
+                    fail("unsound_trial_phase", bad.join("; "), json!({"trial": state_json(tr), "tpd_recomputed": t, "w": w, "ln_phi_w": pw, "z": z, "ln_phi_z": pz}), vec![if t.is_finite() { t } else { f64::INFINITY }], code_tpds(feed, opts, std::slice::from_ref(tr)));
                 } else if all_finite(&pw) && all_finite(&pz) && w.iter().all(|x| *x > 0.0) && z.iter().all(|x| *x > 0.0) {
                     goals.tpd.push((
                         format!("Goal tpd_of {} {} {} {} < 0 /\\ Rabs (tpd_of {} {} {} {} - dy_R {}%Z) <= {:e}.\nProof. split; tpd_interval. Qed.\n",
@@ -197,8 +214,9 @@ fn analyse<E: Residual>(
                     format!("state that must be stable ({kind}) is reported unstable ({} trial phase(s))", trials.len()),
                     json!({"trials": trials.iter().map(|s| { let mut j = state_json(s); j["tpd_recomputed"] = json!(tpd_api(feed, s).0); j }).collect::<Vec<_>>()}),
                     trials.iter().map(|s| tpd_api(feed, s).0).collect(),
+                    code_tpds(feed, opts, &trials),
                 ),
-                Expect::Unstable if trials.is_empty() => fail("reported_stable", format!("feed strictly inside the two-phase region ({kind}) is reported stable"), json!(null), vec![]),
+                Expect::Unstable if trials.is_empty() => fail("reported_stable", format!("feed strictly inside the two-phase region ({kind}) is reported stable"), json!(null), vec![], vec![]),
                 _ => {}
             }
             Some(trials)
@@ -565,6 +583,8 @@ struct PointSpec {
     f_liq: f64, // p = p_bubble * f_liq  (>= 1.02)
     f_vap: f64, // p = p_dew * f_vap     (<= 0.98)
     opts: usize,
+    /// if given: the inside feed sits at p_dew + frac (p_bubble - p_dew) (must respect the 2 % margins) instead of u_in
+    frac: Option<f64>,
 }
 
 fn options(i: usize) -> SolverOptions {
@@ -572,8 +592,25 @@ fn options(i: usize) -> SolverOptions {
         0 => SolverOptions::default(),
         1 => SolverOptions::default().tol(1e-8).max_iter(400),
         2 => SolverOptions::default().tol(1e-5),
-        _ => SolverOptions::default().max_iter(300),
+        3 => SolverOptions::default().max_iter(300),
+        4 => SolverOptions::default().tol(1e-10).max_iter(1000),
+        5 => SolverOptions::default().tol(1e-12).max_iter(1000),
+        6 => SolverOptions::default().tol(1e-4),
+        _ => SolverOptions::default().tol(1e-7).max_iter(200),
     }
+}
+const N_OPTS: usize = 8;
+/// option sets every converged equilibrium phase is analysed with (besides the one drawn for the point): default, tight, loose
+const EQ_OPTS: [usize; 5] = [0, 1, 4, 5, 2];
+/// tolerances below the round-off floor of the iteration: NotConverged is then not a broken clause (counted), verdicts still are checked
+fn below_noise_floor(i: usize) -> bool {
+    matches!(i, 4 | 5)
+}
+
+/// priority entries are marked by a key field and tied without subsampling
+fn keep_prio<E: Residual>(keep: &mut Vec<(State<E>, Value, usize)>, s: &State<E>, mut k: Value, o: usize) {
+    k["tie_priority"] = json!(true);
+    keep.push((s.clone(), k, o));
 }
 
 /// one (T, x) point of a mixture: envelope from the real bubble/dew solvers, then verdicts on both sides
@@ -592,7 +629,8 @@ fn mixture_point<E: Residual>(
     let spec = Array1::from_vec(sp.x.clone());
     let moles = Moles::from_reduced(spec.clone());
     let key = |p: f64, which: &str| json!({"sys": sysname, "T": sp.t, "x": sp.x, "p": p, "which": which, "opts": sp.opts,
-        "spec": {"T": sp.t, "x": sp.x, "u_in": sp.u_in, "f_liq": sp.f_liq, "f_vap": sp.f_vap, "opts": sp.opts}});
+        "spec": {"T": sp.t, "x": sp.x, "u_in": sp.u_in, "f_liq": sp.f_liq, "f_vap": sp.f_vap, "opts": sp.opts, "frac": sp.frac}});
+    let key_o = |p: f64, which: &str, o: usize| { let mut k = key(p, which); k["opts"] = json!(o); k };
     counts[0] += 1;
     let bub = run_guard(|| PhaseEquilibrium::bubble_point(eos, temp, &spec, None, None, Default::default()));
     let dew = run_guard(|| PhaseEquilibrium::dew_point(eos, temp, &spec, None, None, Default::default()));
@@ -611,11 +649,20 @@ fn mixture_point<E: Residual>(
     }
     let opts = options(sp.opts);
     // converged bubble / dew phases are stable
-    for (nm, s) in [("bubble:liquid", bub.liquid()), ("bubble:vapor", bub.vapor()), ("dew:vapor", dew.vapor()), ("dew:liquid", dew.liquid())] {
-        analyse(s, key(s.pressure(Contributions::Total).to_reduced(), nm), nm, Expect::Stable, opts, false, tally, goals, failures);
+    let mut eq_opts: Vec<usize> = EQ_OPTS.to_vec();
+    if !eq_opts.contains(&sp.opts) {
+        eq_opts.push(sp.opts);
     }
-    if counts[0] % 4 == 2 {
-        keep.push((bub.liquid().clone(), key(pb, "bubble:liquid"), sp.opts));
+    for (pi, (nm, s)) in [("bubble:liquid", bub.liquid()), ("bubble:vapor", bub.vapor()), ("dew:vapor", dew.vapor()), ("dew:liquid", dew.liquid())].into_iter().enumerate() {
+        for &o in &eq_opts {
+            let k = key_o(s.pressure(Contributions::Total).to_reduced(), nm, o);
+            let r = analyse(s, k.clone(), nm, Expect::Stable, options(o), false, tally, goals, failures);
+            if r.map(|v| !v.is_empty()).unwrap_or(false) {
+                keep_prio(keep, s, k, o); // a converged phase reported unstable: always goes through the acceptance-model tie
+            } else if (counts[0] + pi) % 4 == 2 && (o == 1 || o == 4) {
+                keep.push((s.clone(), k, o));
+            }
+        }
     }
     // 2 % outside
     for (nm, p, init) in [("outside:liquid", pb * sp.f_liq, DensityInitialization::None), ("outside:vapor", pd * sp.f_vap, DensityInitialization::None)] {
@@ -628,9 +675,10 @@ fn mixture_point<E: Residual>(
     }
     // 2 % inside
     let (lo, hi) = (pd * (1.0 + MARGIN), pb * (1.0 - MARGIN));
-    if lo <= hi {
+    let p_frac = sp.frac.map(|f| pd + f * (pb - pd));
+    if lo <= hi && p_frac.map(|p| p >= lo && p <= hi).unwrap_or(true) {
         counts[2] += 1;
-        let p = lo + sp.u_in * (hi - lo);
+        let p = p_frac.unwrap_or(lo + sp.u_in * (hi - lo));
         if let Ok(s) = run_guard(|| State::new_npt(eos, temp, Pressure::from_reduced(p), &moles, DensityInitialization::None)) {
             let r = analyse(&s, key(p, "inside"), "inside", Expect::Unstable, opts, true, tally, goals, failures);
             if r.is_some() {
@@ -639,7 +687,13 @@ fn mixture_point<E: Residual>(
             // the phases of the converged flash are stable
             if let Ok(vle) = run_guard(|| s.tp_flash(None, SolverOptions::default(), None)) {
                 for (nm, ph) in [("flash:vapor", vle.vapor()), ("flash:liquid", vle.liquid())] {
-                    analyse(ph, key(p, nm), nm, Expect::Stable, opts, false, tally, goals, failures);
+                    for &o in &eq_opts {
+                        let k = key_o(p, nm, o);
+                        let r = analyse(ph, k.clone(), nm, Expect::Stable, options(o), false, tally, goals, failures);
+                        if r.map(|v| !v.is_empty()).unwrap_or(false) {
+                            keep_prio(keep, ph, k, o);
+                        }
+                    }
                 }
             }
         }
@@ -708,6 +762,7 @@ fn run_spec(sysname: &str, spec: &Value) -> (Vec<Value>, Value) {
                 f_liq: spec["f_liq"].as_f64().unwrap(),
                 f_vap: spec["f_vap"].as_f64().unwrap(),
                 opts: spec["opts"].as_u64().unwrap() as usize,
+                frac: spec["frac"].as_f64(),
             };
             let mut keep = Vec::new();
             mixture_point(eos, sysname, &sp, tally, goals, failures, counts, &mut keep);
@@ -801,7 +856,8 @@ fn main() {
         },
         f_liq: if rng.below(3) == 0 { 1.0 + MARGIN } else { rng.range(1.0 + MARGIN, 2.0) },
         f_vap: if rng.below(3) == 0 { 1.0 - MARGIN } else { rng.range(0.3, 1.0 - MARGIN) },
-        opts: if rng.below(3) == 0 { 1 + rng.below(3) } else { 0 },
+        opts: if rng.below(3) == 0 { 1 + rng.below(N_OPTS - 1) } else { 0 },
+        frac: None,
     };
     let mut keep_pc: Vec<(State<PcSaft>, Value, usize)> = Vec::new();
     let mut keep_pr: Vec<(State<PengRobinson>, Value, usize)> = Vec::new();
@@ -814,6 +870,31 @@ fn main() {
         for _ in 0..pts {
             let sp = spec(&mut rng, tlow, 2);
             mixture_point(&eos, &nm, &sp, &mut tally, &mut goals, &mut failures, &mut counts, &mut keep_pc);
+        }
+    }
+    // asymmetric light-gas / heavier-alkane binaries (slowly converging flashes near the bubble pressure); positions given as the
+    // fraction of the way from dew to bubble pressure, kept only when they respect the 2 % margins
+    {
+        let asym: Vec<([&str; 2], f64)> = vec![(["methane", "butane"], 250.0), (["methane", "hexane"], 250.0), (["methane", "hexane"], 300.0),
+            (["ethane", "heptane"], 350.0), (["methane", "propane"], 230.0)];
+        for (pair, t) in asym.iter().take(if full { 5 } else { 3 }) {
+            let eos = pcsaft(&pair[..]);
+            let nm = format!("pcsaft:{}|{}", pair[0], pair[1]);
+            systems.push(format!("{nm}@{t}K"));
+            let mut zs = vec![0.8, 0.5];
+            for _ in 0..(if full { 4 } else { 1 }) {
+                zs.push(rng.range(0.3, 0.85));
+            }
+            for z1 in zs {
+                let mut fr = vec![0.98, 0.9, 0.5];
+                for _ in 0..(if full { 3 } else { 1 }) {
+                    fr.push(rng.range(0.85, 0.99));
+                }
+                for f in fr {
+                    let sp = PointSpec { t: *t, x: vec![z1, 1.0 - z1], u_in: 0.5, f_liq: 1.0 + MARGIN, f_vap: 1.0 - MARGIN, opts: 0, frac: Some(f) };
+                    mixture_point(&eos, &nm, &sp, &mut tally, &mut goals, &mut failures, &mut counts, &mut keep_pc);
+                }
+            }
         }
     }
     // ternaries (PC-SAFT) and Peng-Robinson binary / ternary
@@ -859,7 +940,7 @@ fn main() {
         let eos = pcsaft(&[names[i].as_str()]);
         for _ in 0..(if full { 4 } else { 2 }) {
             let t = tcs[i].unwrap() * rng.range(0.65, 0.9);
-            let o = if rng.below(3) == 0 { 1 + rng.below(3) } else { 0 };
+            let o = if rng.below(3) == 0 { 1 + rng.below(N_OPTS - 1) } else { 0 };
             pure_grid(&eos, &format!("pcsaft:{}", names[i]), t, if full { 24 } else { 12 }, o, &mut tally, &mut goals, &mut failures, &mut pcounts);
         }
     }
@@ -875,14 +956,19 @@ fn main() {
     // ---- tie: hooked private functions vs the models, on kept feeds
     let mut tie = Tie { max_step_goals: if full { 400 } else { 60 }, ..Default::default() };
     let n_tie = if full { 400 } else { 40 };
-    let stride_pc = (keep_pc.len() / (n_tie * 3 / 4).max(1)).max(1);
-    for (s, k, o) in keep_pc.iter().step_by(stride_pc) {
-        tie_feed(s, k, *o, &mut tie, &mut failures);
+    fn tie_all<E: Residual>(keep: &[(State<E>, Value, usize)], budget: usize, full: bool, tie: &mut Tie, failures: &mut Vec<Value>) {
+        // converged phases reported unstable first (acceptance model under the options that produced the verdict), then a strided sample
+        for (s, k, o) in keep.iter().filter(|e| e.1["tie_priority"].as_bool().unwrap_or(false)).take(if full { 60 } else { 12 }) {
+            tie_feed(s, k, *o, tie, failures);
+        }
+        let rest: Vec<&(State<E>, Value, usize)> = keep.iter().filter(|e| !e.1["tie_priority"].as_bool().unwrap_or(false)).collect();
+        let stride = (rest.len() / budget.max(1)).max(1);
+        for (s, k, o) in rest.into_iter().step_by(stride) {
+            tie_feed(s, k, *o, tie, failures);
+        }
     }
-    let stride_pr = (keep_pr.len() / (n_tie / 4).max(1)).max(1);
-    for (s, k, o) in keep_pr.iter().step_by(stride_pr) {
-        tie_feed(s, k, *o, &mut tie, &mut failures);
-    }
+    tie_all(&keep_pc, n_tie * 3 / 4, full, &mut tie, &mut failures);
+    tie_all(&keep_pr, n_tie / 4, full, &mut tie, &mut failures);
     let mut step_files = Vec::new();
     for (ci, cs) in tie.step_goals.chunks(6).enumerate() {
         let mut v = header();
@@ -962,7 +1048,8 @@ fn main() {
             "failures": failures,
             "known_points": known_out,
             "trial_phases_recomputed_in_f64": n_tpd_total,
-            "ranges": "PC-SAFT hydrocarbon binaries of gross2001.json with T_c ratio < 1.5 (+ ternaries, Peng-Robinson 2/3 components), T in [0.65,0.9] of the lowest T_c, x in [0.05,0.95]; p inside [1.02 p_dew, 0.98 p_bubble], p outside >= 1.02 p_bubble or <= 0.98 p_dew; pure: density grid, inside [1.02 rho_V, 0.98 rho_L]",
+            "solver_option_sets": "0 default; 1 tol 1e-8/400; 2 tol 1e-5; 3 max_iter 300; 4 tol 1e-10/1000; 5 tol 1e-12/1000; 6 tol 1e-4; 7 tol 1e-7/200 — every converged bubble/dew/flash phase is analysed with sets 0,1,4,5,2 and the set drawn for the point (NotConverged under sets 4,5 is counted, not judged)",
+            "ranges": "asymmetric methane/ethane + alkane binaries at 90-98 % of the way from dew to bubble pressure; PC-SAFT hydrocarbon binaries of gross2001.json with T_c ratio < 1.5 (+ ternaries, Peng-Robinson 2/3 components), T in [0.65,0.9] of the lowest T_c, x in [0.05,0.95]; p inside [1.02 p_dew, 0.98 p_bubble], p outside >= 1.02 p_bubble or <= 0.98 p_dew; pure: density grid, inside [1.02 rho_V, 0.98 rho_L]",
         }
     });
     cli.write_impl(&res);
